@@ -444,6 +444,41 @@ theorem repoInit_loaded_untouched (p : Pre) (n : Nat) (c : Contents) (hD : p.D =
     repoInit p n c = [] := by
   simp [repoInit, hD, hL, hI]
 
+/-- **`repoInit` repairs whatever a crash inside `repoInit` left.**  Let `c` be *any* disk - in particular the disk at any
+crash point of an earlier `repoInit`, with `oci-layout` missing, empty or cut short - and let the facts `L`, `I` be what
+the code computes on `c` (`L`: the layout file exists **and verifies**, `I`: index.json exists).  Then after a complete
+`repoInit` the repository loads: the layout file verifies and index.json is there.  This is what a `repoInit` that only
+tests the *existence* of `oci-layout` breaks (a torn file is kept, pushes are acknowledged, the next restart does not
+find the repository); on the code it is the monitor `C09.ack-lost-after-recovery` of the continuation probe. -/
+theorem repoInit_repairs (P : Params) (p : Pre) (n : Nat) (k : Contents) (c : Disk)
+    (hk : P.layoutOK k.layoutBytes = true)
+    (hL : p.L = (match c (.layout p.r) with | some b => P.layoutOK b | none => false))
+    (hI : p.I = (c (.index p.r)).isSome) :
+    repoExists P (runSteps (repoInit p n k) c) p.r = true := by
+  cases hD : p.D <;> cases hL' : p.L <;> cases hI' : p.I <;>
+    simp [repoInit, hD, hL', hI', runSteps, stepsOps, Step.ops, FsOp.apply, Disk.set, repoExists, hk] <;>
+    simp_all [Option.isSome_iff_exists] <;> try assumption
+
+/-- at every crash point of `repoInit`, a restart followed by a complete `repoInit` (what the next write does) yields a
+repository that loads -/
+theorem repoInit_crash_then_repoInit (P : Params) (p p' : Pre) (n n' : Nat) (k : Contents) (d : Disk) (kk : Nat) (cut : Option Nat)
+    (hk : P.layoutOK k.layoutBytes = true) (hr : p'.r = p.r)
+    (hL : p'.L = (match crashAt kk cut (stepsOps (repoInit p n k)) d (.layout p.r) with | some b => P.layoutOK b | none => false))
+    (hI : p'.I = (crashAt kk cut (stepsOps (repoInit p n k)) d (.index p.r)).isSome) :
+    repoExists P (runSteps (repoInit p' n' k) (crashAt kk cut (stepsOps (repoInit p n k)) d)) p.r = true := by
+  rw [← hr] at hL hI ⊢
+  exact repoInit_repairs P p' n' k _ hk hL hI
+
+/-- the hypotheses are satisfiable and the statement has content: a layout cut after 1 of 3 bytes does not verify, the
+second `repoInit` rewrites it -/
+example :
+    let P : Params := { H := fun _ b => b.sum, layoutOK := fun b => b == [1, 2, 3], parse := fun _ => some [] }
+    let k : Contents := { layoutBytes := [1, 2, 3], initIndex := [9] }
+    let p : Pre := { r := 0, mex := false, D := false, L := false, I := false, U := false }
+    crashAt 1 (some 1) (stepsOps (repoInit p 0 k)) empty (.layout 0) = some [1] ∧
+    repoExists P (runSteps (repoInit { p with D := true } 1 k) (crashAt 1 (some 1) (stepsOps (repoInit p 0 k)) empty)) 0 = true := by
+  decide
+
 /-- **Removal of an empty repository** (either variant: trying every entry, or stopping at the first that cannot be
 removed; any list of candidates).  At every crash point no file outside the candidate list is touched - in particular
 no blob - and `index.json` is what it was or gone: the sequence can only make a repository *without any index entry*
